@@ -14,6 +14,9 @@ import (
 	"syscall"
 )
 
+// maxKeySize is the largest key length the 16-bit length prefix of a temporary bucket tuple can hold.
+const maxKeySize = 1<<16 - 1
+
 // Builder creates new compactindex files.
 type Builder struct {
 	Header
@@ -68,6 +71,9 @@ func NewBuilder(dir string, numItems uint, targetFileSize uint64) (*Builder, err
 // Index generation will fail if the same key is inserted twice.
 // The writer must not pass a value greater than targetFileSize.
 func (b *Builder) Insert(key []byte, value uint64) error {
+	if len(key) > maxKeySize {
+		return fmt.Errorf("key too long: %d bytes (max %d)", len(key), maxKeySize)
+	}
 	return b.buckets[b.Header.BucketHash(key)].writeTuple(key, value)
 }
 
